@@ -185,3 +185,10 @@ Definition go_ldexp (x : float) (e : Z) : float :=
     functions return NaN there (marked Diverge in DESIGN.md); the correspondence
     generators stay below that threshold and report if they ever reach it. *)
 Definition math_trigReduce (x : float) : Z * float := (0%Z, nan).
+
+(** * math/bits (arguments are in [0, 2^64)) *)
+Local Open Scope Z_scope.
+Definition go_bits_Len64 (x : Z) : Z := if x <=? 0 then 0 else Z.log2 x + 1.
+Definition go_bits_LeadingZeros64 (x : Z) : Z := 64 - go_bits_Len64 x.
+Fixpoint go_ctz_pos (p : positive) : Z := match p with xO q => 1 + go_ctz_pos q | _ => 0 end.
+Definition go_bits_TrailingZeros64 (x : Z) : Z := match x with Zpos p => go_ctz_pos p | _ => 64 end.
